@@ -1,3 +1,5 @@
+//go:build c03
+
 package main
 
 // C03 — autoescaping.
